@@ -25,3 +25,15 @@ package store
 //@   ensures [C01] err == nil ==> hwm[msg.Topic] == (old(hwm[msg.Topic]) >= msg.SeqId ? old(hwm[msg.Topic]) : msg.SeqId)
 //@   ensures [C01] err != nil ==> rowMax[msg.Topic] == old(rowMax[msg.Topic]) && hwm[msg.Topic] >= old(hwm[msg.Topic])
 //@   ensures [C01] hwm[msg.Topic] <= (old(hwm[msg.Topic]) >= msg.SeqId ? old(hwm[msg.Topic]) : msg.SeqId)
+
+// C04: the deletion log reported to a user is the normalised union of the stored log entries: the flattened list is
+// sorted as a whole before it is normalised (Normalize's precondition is an obligation at the call).
+//@ func (m messagesMapper) GetDeleted(topic string, forUser types.Uid, opt *types.QueryOpt) (ranges []types.Range, maxID int, err error)
+//@   requires [C04] adp != nil
+//@   ensures [C04] wf: err == nil ==> forall k int :: 0 <= k && k < len(ranges) ==> ranges[k].Low >= 0 && (ranges[k].Hi == 0 || ranges[k].Hi > ranges[k].Low)
+//@   ensures [C04] disjoint: err == nil ==> forall k int :: 0 <= k && k + 1 < len(ranges) ==> ranges[k].Low < ranges[k+1].Low
+//@   modifies *
+//@   safe
+//@   loop 1
+//@     invariant wf: forall k int :: 0 <= k && k < len(ranges) ==> ranges[k].Low >= 0 && (ranges[k].Hi == 0 || ranges[k].Hi > ranges[k].Low)
+//@     invariant idx: 0 <= #idx && #idx <= len(dmsgs)
